@@ -6,11 +6,13 @@
 import RoModel.DriverCore
 import RoModel.Drivers.Op
 import RoModel.Drivers.MultiB
+import RoModel.Drivers.MultiBC
 namespace Ro.Driver
 
 def handlers : List (String × (Case → String)) := [
   ("op", Drivers.Op.run),
-  ("multib", Drivers.MultiB.run)
+  ("multib", Drivers.MultiB.run),
+  ("multibc", Drivers.MultiBC.run)
 ]
 
 def runCase (c : Case) : String :=
